@@ -39,8 +39,8 @@ theorem eraseKinds_flatten (levels : List (List (UpdK α))) :
   simp [eraseKinds, List.map_flatten]
 
 theorem eraseKinds_reverse_flatten (levels : List (List (UpdK α))) :
-    (eraseKinds levels).reverse.flatten = levels.reverse.flatten.map UpdK.upd := by
-  simp [eraseKinds, List.map_flatten, List.map_reverse]
+    sweep2 (eraseKinds levels) = (sweep2 levels).map UpdK.upd := by
+  simp [sweep2_eq, eraseKinds, List.map_flatten, List.map_reverse]
 
 /-- all updaters mergeable ⇒ the mixed-kind batch is the plain batch over `withKind D true`. -/
 theorem runBatchK_all_mergeable (D : Dom α) (exp : Bool) (ex : Nat → Bool) (levels : List (List (UpdK α))) (s : St α)
@@ -50,10 +50,10 @@ theorem runBatchK_all_mergeable (D : Dom α) (exp : Bool) (ex : Nat → Bool) (l
     intro u hu
     obtain ⟨L, hL, huL⟩ := List.mem_flatten.mp hu
     exact h L hL u huL
-  have h2 : ∀ u ∈ levels.reverse.flatten, u.mergeable = true := by
+  have h2 : ∀ u ∈ sweep2 levels, u.mergeable = true := by
     intro u hu
-    obtain ⟨L, hL, huL⟩ := List.mem_flatten.mp hu
-    exact h L (List.mem_reverse.mp hL) u huL
+    rw [sweep2_eq] at hu
+    exact h1 u (List.mem_reverse.mp hu)
   simp only [runBatchK, runBatchE, eraseKinds_flatten, eraseKinds_reverse_flatten]
   rw [runPassK_eq (stepK1 D exp ex) (stepE ex (step1 (withKind D true) exp)) _ _
         (fun u hu s' => by simp [stepK1, h1 u hu])]
